@@ -204,6 +204,41 @@ def run_histories(S, tier, ref):
         shutil.rmtree(scratch, ignore_errors=True)
 
 
+def run_pairs(S, tier, ref):
+    """Every schema (not only the three of the histories): generator g2 on a parsed object that g1 (thorough: g0, g1)
+    was run on before, compared with the fresh-process reference of g2."""
+    import itertools
+    from ..common import pmap
+
+    srcs = all_schemas()
+
+    def work(sname):
+        T = Stats()
+        scratch = tempfile.mkdtemp(prefix="fcpmc-c17p-")
+        try:
+            for seq in itertools.product(GENERATORS, repeat=2 if tier == "quick" else 3):
+                T.count("states")
+                T.count("executions")
+                fcp = parse(sname, srcs[sname])
+                with contextlib.redirect_stdout(io.StringIO()):
+                    for g in seq[:-1]:
+                        T.count("transitions")
+                        generate(g, fcp, scratch)
+                    T.count("transitions")
+                    files = generate(seq[-1], fcp, scratch)
+                T.add("nontrivial", ("pair", sname, seq))
+                d = first_diff(ref["%s|%s" % (seq[-1], sname)], files)
+                T.add("outcomes", ("pair", seq[-1], d is None))
+                if d is not None:
+                    T.violation("C17.history", "C17.history/output-depends-on-earlier-calls/%s/after=%s" % (seq[-1], "+".join(sorted(set(seq[:-1])))), {"ops": ["parse:" + sname] + ["gen:%s:%s" % (g, sname) for g in seq], "schemas": {sname: srcs[sname]}}, expected="same files as a fresh process", actual=d)
+        finally:
+            shutil.rmtree(scratch, ignore_errors=True)
+        return T
+
+    for T in pmap(work, sorted(srcs)):
+        S.merge(T)
+
+
 def run(tier):
     common.bind_repo()
     r = Run("C17", tier)
@@ -211,12 +246,13 @@ def run(tier):
     try:
         ref = run_seeds(r.stats, tier, root)
         run_histories(r.stats, tier, ref)
+        run_pairs(r.stats, tier, ref)
     finally:
         shutil.rmtree(root, ignore_errors=True)
     r.bounds = {"schemas": len(all_schemas()), "generators": list(GENERATORS), "seeds": 4 if tier == "quick" else 16, "history_depth": 3 if tier == "quick" else 4}
     r.rule = (
         "states = (generator, schema, PYTHONHASHSEED) fresh-process runs compared file by file with seed 0, plus every history over {parse(s), gen(g,s)} (3 schemas) up to the depth bound in ONE "
-        "process, explored by fork-snapshot (each node inherits the live objects of its prefix; gen reuses the object currently bound to s); every gen node is compared with the fresh-process reference. "
+        "process, explored by fork-snapshot (each node inherits the live objects of its prefix; gen reuses the object currently bound to s); every gen node is compared with the fresh-process reference; for EVERY schema additionally each generator after each (thorough: each pair of) generator(s) on one parsed object. "
         "Only lines starting '// Generated using fcp' are masked. non-trivial = runs that produced artefacts / histories ending in gen."
     )
     r.assumptions = ["printed output of the nop generator is treated as an artefact named <stdout>"]
